@@ -20,4 +20,22 @@ def safeForm (form : String) : Bool :=
 def kwargSiteOK (s : String × String × String × List String) : Bool :=
   safeForm s.2.2.1 && s.2.2.2.all (fun e => reviewedQuotedExprs.contains e)
 
+/-! ### the extra-key sanitiser (`JsonSchemaParser.get_field_extra_key`)
+
+An extra schema key becomes a keyword NAME of `Field(...)` exactly for the field models with
+`can_have_extra_keys` (pydantic v1); for the others it is a key of a `repr`-rendered dict (a string
+literal: C10's literal theorems).  Under the `can_have_extra_keys` guard — or under no guard at all —
+the ONLY reviewed form of a return path is `resolver`: the first component of
+`ModelResolver.get_valid_field_name_and_alias` applied to the untouched key, which C07 proves to be an
+identifier that is not a keyword.  `identity` (the key handed back as it came, e.g. behind
+`key.isidentifier()` — true of every Python keyword) is accepted only where keys stay data. -/
+
+def sanitiserPathOK (p : String × String × String) : Bool :=
+  if p.1 == "not can_have_extra_keys" then p.2.1 == "resolver" || p.2.1 == "identity"
+  else p.2.1 == "resolver"
+
+/-- there is a binding for the field models that write keys as keyword names -/
+def sanitiserBindsKeywordCase (p : String × String × String) : Bool :=
+  p.1 == "can_have_extra_keys" || p.1 == "always"
+
 end Dcg.Model.CodeSites
